@@ -28,7 +28,9 @@ type Pred struct {
 	Desc  *ociregistry.Descriptor
 	// DescMT lists acceptable media types when more than one is tolerable.
 	DescMT []string
-	Why    string
+	// SizeZeroOK: the documented exception that MountBlob may return a zero size.
+	SizeZeroOK bool
+	Why        string
 }
 
 type Outcome struct {
@@ -61,7 +63,8 @@ func (p Pred) Check(o Outcome) string {
 		for _, mt := range p.DescMT {
 			mtOK = mtOK || mt == o.Desc.MediaType
 		}
-		if d.Digest != o.Desc.Digest || d.Size != o.Desc.Size || !mtOK {
+		sizeOK := d.Size == o.Desc.Size || (p.SizeZeroOK && o.Desc.Size == 0)
+		if d.Digest != o.Desc.Digest || !sizeOK || !mtOK {
 			return fmt.Sprintf("descriptor: want %s got %s", descText(d), descText(o.Desc))
 		}
 	}
@@ -92,18 +95,30 @@ func (r *mRepo) empty() bool {
 type mUpload struct {
 	Repo  string
 	Buf   []byte
-	Check int64  // -2: no pending check; -1: resume asked "continue"; >=0: first write must be at this offset
+	// Check is the pending start-offset check of each BlobWriter value obtained for this session, by writer slot:
+	// absent or -2: no pending check; -1: resume asked "continue"; >=0: that writer's first write must be at this offset.
+	Check map[int]int64
 	State string // open, committed, cancelled, failed
 }
 
 type Model struct {
-	Immutable bool
+	// HEADResolves: resolves travel as body-less HEAD requests, so a failing
+	// resolve can only carry the status class, not the OCI code.
+	HEADResolves bool
+	Immutable    bool
 	Repos     map[string]*mRepo
 	Uploads   []*mUpload
 }
 
 func NewModel(immutable bool) *Model {
 	return &Model{Immutable: immutable, Repos: map[string]*mRepo{}}
+}
+
+func (u *mUpload) check(w int) int64 {
+	if c, ok := u.Check[w]; ok {
+		return c
+	}
+	return -2
 }
 
 func (m *Model) repo(name string, create bool) *mRepo {
@@ -143,7 +158,7 @@ func (m *Model) Key() string {
 		sb.WriteString("}")
 	}
 	for i, u := range m.Uploads {
-		fmt.Fprintf(&sb, "u%d[%s,%q,%d,%s]", i, u.Repo, u.Buf, u.Check, u.State)
+		fmt.Fprintf(&sb, "u%d[%s,%q,%v,%s]", i, u.Repo, u.Buf, u.check(0), u.State)
 	}
 	return sb.String()
 }
@@ -323,7 +338,7 @@ func (m *Model) Predict(u *universe, op Op) Pred {
 			return Pred{Ok: mustFail, Why: "source blob missing"}
 		}
 		d := descOf(from.Blobs[dig].MT, u.Blobs[op.B])
-		return Pred{Ok: mustOK, Desc: &d, Why: "source blob present"}
+		return Pred{Ok: mustOK, Desc: &d, SizeZeroOK: true, Why: "source blob present"}
 	case "DeleteBlob":
 		r := m.repo(op.Repo, false)
 		dig := sha256Digest(u.Blobs[op.B])
@@ -382,7 +397,7 @@ func (m *Model) Predict(u *universe, op Op) Pred {
 		if up.State != "open" {
 			return Pred{Ok: either, Why: "write to a finished session"}
 		}
-		if up.Check >= 0 && up.Check != int64(len(up.Buf)) {
+		if c := up.check(op.W); c >= 0 && c != int64(len(up.Buf)) {
 			return Pred{Ok: mustFail, Codes: []string{"RANGE_INVALID"}, Why: "write at an offset the registry has not reached"}
 		}
 		return Pred{Ok: mustOK, Why: "write at the current offset"}
@@ -394,7 +409,7 @@ func (m *Model) Predict(u *universe, op Op) Pred {
 		case "committed", "failed":
 			return Pred{Ok: either, Why: "commit after an earlier commit"}
 		}
-		if op.Bad != "" {
+		if op.Bad != "" || (op.Off == "explicit" && op.Piece != string(up.Buf)) {
 			return Pred{Ok: mustFail, Why: "digest does not match the uploaded bytes"}
 		}
 		d := descOf(mtOctet, up.Buf)
@@ -459,7 +474,7 @@ func (m *Model) Advance(u *universe, op Op, ok bool) {
 		}
 	case "Start":
 		if ok {
-			m.Uploads = append(m.Uploads, &mUpload{Repo: op.Repo, Check: 0, State: "open"})
+			m.Uploads = append(m.Uploads, &mUpload{Repo: op.Repo, Check: map[int]int64{0: 0}, State: "open"})
 		} else {
 			m.Uploads = append(m.Uploads, &mUpload{Repo: op.Repo, State: "dead"})
 		}
@@ -468,21 +483,29 @@ func (m *Model) Advance(u *universe, op Op, ok bool) {
 		if !ok || up.State != "open" {
 			return
 		}
+		if up.Check == nil {
+			up.Check = map[int]int64{}
+		}
 		switch op.Off {
 		case "size":
-			up.Check = int64(len(up.Buf))
+			up.Check[op.W] = int64(len(up.Buf))
 		case "-1":
-			up.Check = -1
+			up.Check[op.W] = -1
 		case "wrong":
-			up.Check = int64(len(up.Buf)) + 1
+			up.Check[op.W] = int64(len(up.Buf)) + 1
 		case "zero":
-			up.Check = 0
+			up.Check[op.W] = 0
+		case "num":
+			up.Check[op.W] = op.N
 		}
 	case "Write":
 		up := m.Uploads[op.H]
 		if ok {
 			up.Buf = append(append([]byte(nil), up.Buf...), op.Piece...)
-			up.Check = -2
+			if up.Check == nil {
+				up.Check = map[int]int64{}
+			}
+			up.Check[op.W] = -2
 		}
 	case "Commit":
 		up := m.Uploads[op.H]
@@ -500,4 +523,34 @@ func (m *Model) Advance(u *universe, op Op, ok bool) {
 			up.State = "cancelled"
 		}
 	}
+}
+
+// Clone deep-copies the model (for linearizability search).
+func (m *Model) Clone() *Model {
+	c := &Model{Immutable: m.Immutable, HEADResolves: m.HEADResolves, Repos: map[string]*mRepo{}}
+	for n, r := range m.Repos {
+		nr := &mRepo{Blobs: map[ociregistry.Digest]*mBlob{}, Mans: map[ociregistry.Digest]*mMan{}, Tags: map[string]ociregistry.Descriptor{}}
+		for k, v := range r.Blobs {
+			b := *v
+			nr.Blobs[k] = &b
+		}
+		for k, v := range r.Mans {
+			b := *v
+			nr.Mans[k] = &b
+		}
+		for k, v := range r.Tags {
+			nr.Tags[k] = v
+		}
+		c.Repos[n] = nr
+	}
+	for _, u := range m.Uploads {
+		nu := *u
+		nu.Buf = append([]byte(nil), u.Buf...)
+		nu.Check = map[int]int64{}
+		for k, v := range u.Check {
+			nu.Check[k] = v
+		}
+		c.Uploads = append(c.Uploads, &nu)
+	}
+	return c
 }
